@@ -1177,6 +1177,39 @@ class Ceremony:
                 # the derivation record of the replaced key would name a key that is not in the script: drop it
                 last = pks[-1]
                 pm["outputs"][ch_pos] = [kv for kv in om if kv[0] != b"\x02" + last]
+        elif kind == "lookalike_witness_program_change":
+            # the change output pays to p2sh of a redeem script that only LOOKS like the p2wsh program of the wallet's change witness
+            # script: the 32-byte hash is pushed with OP_PUSHDATA1/2/4, so consensus sees no witness program and never runs the
+            # multisig (anyone who knows the 35 bytes can spend); the genuine witness script and derivations are attached
+            if ch_pos is None or s.n < 2:
+                return None
+            ws_c = tm.multisig_script(s.m, s.change["pks"])
+            h_ = tm.sha256(ws_c)
+            red = [b"\x00\x4c\x20" + h_, b"\x00\x4d\x20\x00" + h_, b"\x00\x4e\x20\x00\x00\x00" + h_][a % 3]
+            tx["outs"][ch_pos]["spk"] = tm.spk_p2sh(tm.hash160(red))
+            put_tx()
+            om = [kv for kv in pm["outputs"][ch_pos] if kv[0][:1] not in (b"\x00", b"\x01")]
+            pm["outputs"][ch_pos] = [(b"\x00", red), (b"\x01", ws_c)] + om
+        elif kind == "lookalike_template_input":
+            # an input whose genuine previous transaction pays to a script that only looks like the wallet's p2sh / p2wsh output (hash
+            # pushed non-minimally): the attached script does not lock that output
+            k_in = a % len(pm["inputs"])
+            ftx0 = s.funding.get(tx["ins"][k_in]["txid"])
+            if ftx0 is None or s.kind not in ("p2sh", "p2wsh"):
+                return None
+            ftx = tm.clone(ftx0)
+            vout = tx["ins"][k_in]["vout"]
+            spk0 = ftx["outs"][vout]["spk"]
+            if s.kind == "p2sh":
+                ftx["outs"][vout]["spk"] = b"\xa9\x4c\x14" + spk0[2:22] + b"\x87"
+            else:
+                ftx["outs"][vout]["spk"] = b"\x00\x4c\x20" + spk0[2:]
+            fid = tm.txid(ftx)
+            s.funding[fid] = ftx  # this transaction exists on chain
+            tx["ins"][k_in]["txid"] = fid
+            put_tx()
+            im = [kv for kv in pm["inputs"][k_in] if kv[0][:1] not in (b"\x00", b"\x01")]
+            pm["inputs"][k_in] = [(b"\x00", tm.ser_tx(ftx))] + im
         elif kind == "foreign_script_on_spend_output":
             # a payee output (no derivations) gets an unrelated script record attached: witness-program shaped or multisig, as redeem
             # or witness script
@@ -1439,7 +1472,7 @@ def execute(plan, prop, trace):
 
 # ------------------------------------------------------------------------------------------------ generation
 
-TAMPER_KINDS = ["foreign_script_on_spend_output", "foreign_script_on_spend_output", "malformed_multisig_change", "malformed_multisig_change", "foreign_redeem_on_p2wsh_input", "weak_quorum_dust_input", "weak_quorum_dust_input", "swap_change_spk", "flip_change_spk_byte", "foreign_script", "foreign_fingerprint", "wrong_path", "one_cosigner_keys", "one_cosigner_keys_spoofed_fps", "utxo_amount", "other_prev_tx", "changed_quorum", "second_change",
+TAMPER_KINDS = ["lookalike_witness_program_change", "lookalike_witness_program_change", "lookalike_template_input", "foreign_script_on_spend_output", "foreign_script_on_spend_output", "malformed_multisig_change", "malformed_multisig_change", "foreign_redeem_on_p2wsh_input", "weak_quorum_dust_input", "weak_quorum_dust_input", "swap_change_spk", "flip_change_spk_byte", "foreign_script", "foreign_fingerprint", "wrong_path", "one_cosigner_keys", "one_cosigner_keys_spoofed_fps", "utxo_amount", "other_prev_tx", "changed_quorum", "second_change",
                 "redeem_for_other_input", "forge_change", "forge_change", "forge_change", "nonwitness_utxo_foreign_script", "both_utxo_records_disagree", "swap_change_spk_type", "swap_change_spk_type", "p2sh_input_as_witness_utxo"]
 
 
@@ -1627,7 +1660,7 @@ def enumerate_plans(tier, prop, seed):
         # the catalogue against both wallet types
         for kind in ("p2sh", "p2wsh"):
             for tk in [None] + TAMPER_KINDS:
-                for rep in range((1 if tier == "quick" else 4) * (3 if tk == "weak_quorum_dust_input" else 5 if tk == "malformed_multisig_change" else 4 if tk == "foreign_script_on_spend_output" else 2 if tk == "foreign_redeem_on_p2wsh_input" else 1)):
+                for rep in range((1 if tier == "quick" else 4) * (3 if tk == "weak_quorum_dust_input" else 5 if tk == "malformed_multisig_change" else 3 if tk == "lookalike_witness_program_change" else 4 if tk == "foreign_script_on_spend_output" else 2 if tk == "foreign_redeem_on_p2wsh_input" else 1)):
                     plan = base(kind, r.choice([1, 2]) if tk != "weak_quorum_dust_input" else 2, 2 if tier == "quick" else r.choice([2, 3]))
                     plan["creator"] = {"segwit_flag": False, "xpubs": rep % 2 == 1, "unknown": False, "helper": kind == "p2sh" and rep % 2 == 0}
                     plan["sign_method"] = "keys"
